@@ -317,7 +317,7 @@ package message
 //@   requires forall i int :: 0 <= i && i < len(r.publisherDecorators) ==> r.publisherDecorators[i] != nil
 //@   callee PD = decorator : function dapp
 //@   nopanic
-//@   ensures result == nil ==> h.publisher == decoP(r.publisherDecorators, 0, old(h.publisher)) [first-added-decorator-is-outermost-and-acts-first-on-outgoing-messages]
+//@   ensures result == nil ==> h.publisher == old(decoP(r.publisherDecorators, 0, h.publisher)) [first-added-decorator-is-outermost-and-acts-first-on-outgoing-messages]
 //@   ensures result != nil ==> h.publisher == old(h.publisher) [untouched-on-error]
 //@   inv loop 1: 0 - 1 <= i && i < len(r.publisherDecorators) && pub == decoP(r.publisherDecorators, i + 1, old(h.publisher)) && h.publisher == old(h.publisher) [nesting-built-from-the-inside-out]
 //@   modifies h.publisher
@@ -335,7 +335,7 @@ package message
 //@   callee SD = decorator : function sapp
 //@   nopanic
 //@   ghost let ctxdeco = sub @loop 1
-//@   ensures result == nil ==> hasdyntype(ctxdeco, "*message.messageTransformSubscriberDecorator") && unboxptr(ctxdeco, "message.messageTransformSubscriberDecorator").sub == old(h.subscriber) && isclosure(unboxptr(ctxdeco, "message.messageTransformSubscriberDecorator").transform, "message.(*Router).decorateHandlerSubscriber$1") && h.subscriber == decoS(r.subscriberDecorators, len(r.subscriberDecorators) - 1, ctxdeco) [context-decorator-innermost-then-decorators-in-the-order-added]
+//@   ensures result == nil ==> hasdyntype(ctxdeco, "*message.messageTransformSubscriberDecorator") && unboxptr(ctxdeco, "message.messageTransformSubscriberDecorator").sub == old(h.subscriber) && isclosure(unboxptr(ctxdeco, "message.messageTransformSubscriberDecorator").transform, "message.(*Router).decorateHandlerSubscriber$1") && h.subscriber == decoS(r.subscriberDecorators, len(r.subscriberDecorators) - 1, ctxdeco) && (forall i int :: 0 <= i && i < len(r.subscriberDecorators) ==> r.subscriberDecorators[i] == old(r.subscriberDecorators[i])) && len(r.subscriberDecorators) == old(len(r.subscriberDecorators)) [context-decorator-innermost-then-decorators-in-the-order-added]
 //@   ensures result != nil ==> h.subscriber == old(h.subscriber) [untouched-on-error]
 //@   inv loop 1: sub == decoS(r.subscriberDecorators, rangeindex, ctxdeco) && h.subscriber == old(h.subscriber) && hasdyntype(ctxdeco, "*message.messageTransformSubscriberDecorator") && unboxptr(ctxdeco, "message.messageTransformSubscriberDecorator").sub == old(h.subscriber) && isclosure(unboxptr(ctxdeco, "message.messageTransformSubscriberDecorator").transform, "message.(*Router).decorateHandlerSubscriber$1") [applied-in-order-so-far]
 //@   modifies h.subscriber
